@@ -19,8 +19,10 @@ H.append({"name":"H_frames","tiers":Q,"scale":"p16","bounds":"reader buffer scal
   "param_sets":sets([(0,),(3,),(5,),(12,),(0,5),(4,0),(5,6),(12,3),(2,5,0),(5,4,12)],range(0,8),[0],[0])})
 H.append({"name":"H_frames","tiers":Q,"scale":"p4","bounds":"buffer 4: 2-3 messages, lagging source (checkpoint delayed by 0..3 reads, i.e. possibly in the middle of a later message)",
   "param_sets":sets([(0,3),(3,2),(2,0,3)],[1,2,3,5],[3],[0])})
-H.append({"name":"H_frames","tiers":T,"scale":"p4","bounds":"buffer 4: up to 4 messages 0..9 bytes, every save subset, lag 0..4 reads, short reads","max_seconds":1200,
-  "param_sets":sets([(0,),(1,),(4,),(9,),(0,0),(3,4),(9,1),(1,0,5),(4,4,4),(0,3,0,2),(5,1,9,0)],range(0,16),[0,4],[0,1])})
+H.append({"name":"H_frames","tiers":Q,"scale":"p4","bounds":"all-default messages (zero-length encoding) in every position of 2-3 message streams, read into a reused struct; save subsets; plain and lagging source",
+  "param_sets":[dict(d,empty=e) for d in sets([(3,2),(2,0,3)],[0,3,5],[0,3],[0]) for e in (1,2,3,4,6) if e < (1<<sum(1 for k in ("l0","l1","l2","l3") if d[k]>=0))]})
+H.append({"name":"H_frames","tiers":T,"scale":"p4","bounds":"buffer 4: up to 4 messages 0..9 bytes, every save subset, lag 0..4 reads (full reads); every short-read slicing for streams of 1-2 messages up to 4 bytes","max_seconds":1200,
+  "param_sets":sets([(0,),(1,),(4,),(9,),(0,0),(3,4),(9,1),(1,0,5),(4,4,4),(0,3,0,2),(5,1,9,0)],range(0,16),[0,4],[0])+sets([(0,),(1,),(4,),(0,0),(2,1)],range(0,4),[0,2],[1])})
 H.append({"name":"H_frames","tiers":T,"bounds":"real 32 KiB buffer: payloads 32 KiB-1/32 KiB/32 KiB+1 bytes (message lengths straddling the reusable buffer and its first growth step), save before each",
   "max_seconds":1800,"max_steps":2000000000,"param_sets":sets([(32757,3),(32758,0),(32759,1),(32768,2),(65537,1)],[0,1,3],[0],[0])})
 json.dump({"property":"C13","package":"c13","scale":scale,"harnesses":H,
